@@ -173,7 +173,7 @@ def ids_from_single(single_local, mirror, geo):
 class C22(C.Check):
     prop = "C22"
     coq_dir = "C22"
-    level = "proof-partial"
+    level = "proof"
     trusted_base = [
         "Coq 8.16.1 kernel (coqc, vm_compute for the correspondence evaluation); theorems closed under the global context",
         "tr/c26_pyfun.py + tr/c26_gen.py: translation of shareRange (fail closed, regenerated every run)",
@@ -203,23 +203,29 @@ class C22(C.Check):
         plan = []
         stored = [(c["kind"], c["cfg"]) for c in ctx.corpus() if "cfg" in c]
         for kind, cfg in stored:
-            nts = [1, 2, 3]
+            nts = [1, 2] if quick else [1, 2, 3]
             plan += [(kind, cfg, nt) for nt in nts]
-        for cfg in kl_configs(rng, quick):
-            nts = [1, 2, 3, 5] if quick else [1, 2, 3, 4, 5, 6]
+        # quick: per configuration the task counts that matter most -- a range that starts on the
+        # mirrored member of a pair (4 entries over 3 tasks), an uneven split, more tasks than samples
+        quick_nts = [[1, 3], [1, 2], [1, 5]]
+        for ci, cfg in enumerate(kl_configs(rng, quick)):
+            nts = quick_nts[ci % 3] if quick else [1, 2, 3, 4, 5, 6]
             plan += [("kl", cfg, nt) for nt in nts]
         for cfg in okl_configs(rng, quick):
             if cfg.get("outdir"):
                 cfg["outdir"] = work
-            nts = ([1, 2, 3] if 0 in cfg["sched"] else [1, 3]) if quick else [1, 2, 3, 4, 5]
+            nts = ([1, 2] if 0 in cfg["sched"] else [1, 3]) if quick else [1, 2, 3, 4, 5]
             plan += [("okl", cfg, nt) for nt in nts]
         timeout = 240 if quick else 600
 
         def one(item):
             kind, cfg, nt = item
             return {"kind": kind, "cfg": cfg, "ntask": nt, "res": run_cfg(kind, cfg, nt, timeout)}
+        import time
+        t0 = time.time()
         with ThreadPoolExecutor(max_workers=2) as ex:
             self.runs = list(ex.map(one, plan))
+        self.t_runs = round(time.time() - t0, 1)
         shutil.rmtree(work, ignore_errors=True)
 
     def correspondence(self, ctx, res):
@@ -277,7 +283,7 @@ class C22(C.Check):
             "input_distribution": {"forked_runs": len(self.runs), "kl_runs": sum(1 for r in self.runs if r["kind"] == "kl"),
                                    "optimize_kl_runs": sum(1 for r in self.runs if r["kind"] == "okl"),
                                    "task_counts": sorted({r["ntask"] for r in self.runs})},
-            "disagreements": len(bad), "exhaustive": False,
+            "disagreements": len(bad), "exhaustive": False, "seconds_in_forked_runs": self.t_runs,
             "partial": "real MPI is not available (no libmpi): a process-based fake communicator with mpi4py semantics is used",
         })
         return bad
